@@ -359,11 +359,11 @@ func keysOf(m map[int]bool) []int {
 
 func init() {
 	simkit.Register(&simkit.Harness{
-		ID:   "C22",
-		Run:  c22Run,
-		Real: []string{"isaacdatabase.TempPool (SetOperation/OperationHashes/Operation/setRemoveNewOperations)", "leveldbstorage", "goleveldb on memory storage", "util.BaseJobWorker"},
-		Stub: []string{"operations are isaac.DummyOperation (test-tagged type of the repository) signed with different keys over shared facts"},
-		Rule: "each run draws 1-5 facts, 1-10 operations (several per fact, different signers), a sequence of 2-14 steps (SetOperation, re-add, OperationHashes with limit 1..6 and a random reject-set filter, pool restart) on one client, or 2-3 concurrent clients followed by a strict sequential call; adds are separated on the fake clock except in deliberate tie runs. Oracle per call, from the statement: <= limit, distinct ops and facts, every entry added and found by Operation(), passes this filter, never an op rejected by an earlier filter, and no eligible later-added op of the same fact exists. distinct = event-log hash",
+		ID:          "C22",
+		Run:         c22Run,
+		Real:        []string{"isaacdatabase.TempPool (SetOperation/OperationHashes/Operation/setRemoveNewOperations)", "leveldbstorage", "goleveldb on memory storage", "util.BaseJobWorker"},
+		Stub:        []string{"operations are isaac.DummyOperation (test-tagged type of the repository) signed with different keys over shared facts"},
+		Rule:        "each run draws 1-5 facts, 1-10 operations (several per fact, different signers), a sequence of 2-14 steps (SetOperation, re-add, OperationHashes with limit 1..6 and a random reject-set filter, pool restart) on one client, or 2-3 concurrent clients followed by a strict sequential call; adds are separated on the fake clock except in deliberate tie runs. Oracle per call, from the statement: <= limit, distinct ops and facts, every entry added and found by Operation(), passes this filter, never an op rejected by an earlier filter, and no eligible later-added op of the same fact exists. distinct = event-log hash",
 		Assumptions: []string{"'most recently added' is judged by the fake clock read just before SetOperation; operations added at the same instant are unordered", "under concurrent clients only the structural clauses are judged; the recency clause is judged at quiescence"},
 	})
 }
